@@ -612,6 +612,92 @@ pub fn run(cli: &Cli) -> (Value, Vec<Violation>) {
             }
         }
     }
+    // ---- SETCLUSTER, CONFIG section: value combinations x every order of the key/value pairs
+    // (the encoder emits them in hash-map order, the decoder applies them one at a time)
+    let mut config_cases = 0usize;
+    {
+        let local = locals.iter().find(|l| !l.is_empty()).cloned().unwrap_or_default();
+        let peer = peers.iter().find(|l| !l.is_empty()).cloned().unwrap_or_default();
+        let mut cfgs = vec![];
+        for s in [CompressionStrategy::Disabled, CompressionStrategy::AllowAll] {
+            for mt in [1u64, 5, 10800, 4_000_000] {
+                for bt in [1u64, 2000, 10000, 20_000_000_000] {
+                    for (si, sc) in [(500u64, 16u64), (0, 1), (1_000_000, 1_000_000)] {
+                        let mut c = ClusterConfig::default();
+                        c.compression_strategy = s;
+                        c.migration_config.max_migration_time = mt;
+                        c.migration_config.max_blocking_time = bt;
+                        c.migration_config.scan_interval = si;
+                        c.migration_config.scan_count = sc;
+                        cfgs.push(c);
+                    }
+                }
+            }
+        }
+        fn perms(n: usize) -> Vec<Vec<usize>> {
+            if n == 0 {
+                return vec![vec![]];
+            }
+            let mut out = vec![];
+            for p in perms(n - 1) {
+                for i in 0..=p.len() {
+                    let mut q = p.clone();
+                    q.insert(i, n - 1);
+                    out.push(q);
+                }
+            }
+            out
+        }
+        for cfg in &cfgs {
+            let v = ProxyClusterMeta::new(200, ClusterMapFlags { force: false, compress: false }, ClusterName::try_from("c1").unwrap(), local.clone(), peer.clone(), cfg.clone());
+            let want = c_cluster_meta(&v, true, true);
+            let plain = v.to_args();
+            let ci = match plain.iter().position(|t| t.eq_ignore_ascii_case("CONFIG")) {
+                Some(i) => i,
+                None => {
+                    acc.add("setcluster:config-section-missing".into(), format!("{:?}", plain), json!({"tokens": plain}));
+                    continue;
+                }
+            };
+            let pairs: Vec<(String, String)> = plain[ci + 1..].chunks(2).filter(|c| c.len() == 2).map(|c| (c[0].clone(), c[1].clone())).collect();
+            let orders = if thorough || pairs.len() <= 3 { perms(pairs.len()) } else { perms(pairs.len()).into_iter().step_by(7).collect() };
+            for o in orders {
+                let mut toks: Vec<String> = plain[..=ci].to_vec();
+                for i in &o {
+                    toks.push(pairs[*i].0.clone());
+                    toks.push(pairs[*i].1.clone());
+                }
+                config_cases += 1;
+                acc.evals += 1;
+                match real_setcluster(&s2t(&toks)) {
+                    Ok(got) => {
+                        let mut g = got.clone();
+                        g.local.retain(|_, v| !v.is_empty());
+                        g.peer.retain(|_, v| !v.is_empty());
+                        let mut w = want.clone();
+                        w.local.retain(|_, v| !v.is_empty());
+                        w.peer.retain(|_, v| !v.is_empty());
+                        if g != w {
+                            acc.add("setcluster:config-decoding-depends-on-field-order".into(), format!("config {:?}: the plain encoding with its CONFIG pairs in order {:?} decodes to {:?}", want.config, toks[ci..].to_vec(), got.config), json!({"tokens": toks}));
+                        }
+                    }
+                    Err(e) => acc.add("setcluster:config-decoding-depends-on-field-order".into(), format!("config {:?}: the plain encoding with its CONFIG pairs in order {:?} is rejected: {}", want.config, toks[ci..].to_vec(), e), json!({"tokens": toks})),
+                }
+            }
+            let vc = ProxyClusterMeta::new(200, ClusterMapFlags { force: false, compress: true }, ClusterName::try_from("c1").unwrap(), local.clone(), peer.clone(), cfg.clone());
+            config_cases += 1;
+            acc.evals += 1;
+            match vc.to_compressed_args().map_err(|e| format!("{:?}", e)).and_then(|a| real_setcluster(&s2t(&a))) {
+                Ok(mut got) => {
+                    got.compress = false;
+                    if got.config != want.config {
+                        acc.add("setcluster:compressed-roundtrip-differs".into(), format!("config {:?} decodes (compressed) to {:?}", want.config, got.config), json!({}));
+                    }
+                }
+                Err(e) => acc.add("setcluster:compressed-roundtrip-rejected".into(), format!("config {:?}: {}", want.config, e), json!({})),
+            }
+        }
+    }
     // ---- SETREPL
     let peer_sets: Vec<Vec<ReplPeer>> = vec![
         vec![],
@@ -695,7 +781,8 @@ pub fn run(cli: &Cli) -> (Value, Vec<Violation>) {
     let cov = json!({
         "evaluations": acc.evals,
         "distinct_nontrivial": values + mutated,
-        "rule": "values: generated ProxyClusterMeta (0-2 local nodes x 0-2 peers x slot-range menus incl. multi-range lists and both tags x configs x force), ReplicatorMeta (0-2 masters/replicas x 0-2 peers), MigrationTaskMeta; each encoded by the real encoder; mutated encodings: every single-token deletion, truncation at every token, 6-7 replacements per token, 64 single-character corruptions of each compressed payload; all distinct by construction",
+        "config_order_cases": config_cases,
+        "rule": "CONFIG family: 96 cluster configs (strategy x max_migration_time x max_blocking_time x scan interval/count, small / default / huge) x every order of the key/value pairs of the plain CONFIG section (a sample of the 120 orders in the lowest tier) + the compressed form; values: generated ProxyClusterMeta (0-2 local nodes x 0-2 peers x slot-range menus incl. multi-range lists and both tags x configs x force), ReplicatorMeta (0-2 masters/replicas x 0-2 peers), MigrationTaskMeta; each encoded by the real encoder; mutated encodings: every single-token deletion, truncation at every token, 6-7 replacements per token, 64 single-character corruptions of each compressed payload; all distinct by construction",
         "values": values,
         "mutated_encodings": mutated,
         "mutants_still_valid_and_parsed_identically": acc.accepted_valid,
